@@ -14,6 +14,7 @@ func init() {
 	vxRegister("H18aT", H18aT)
 	vxRegister("H18tmpl", H18tmpl)
 	vxRegister("H18c", H18c)
+	vxRegister("H18tables", H18tables)
 	vxRegister("H18cMulti", H18cMulti)
 }
 
@@ -23,6 +24,65 @@ var vxLangs = []language.Language{
 	language.Shell, language.Ruby, language.HTML, language.Haskell, language.SQL, language.MySQL,
 	language.ObjectiveC, language.Matlab, language.CMake, language.Batch, language.Fortran, language.Lisp,
 	language.AppleScript, language.Unknown,
+}
+
+// vxSyntax is an independent statement of each language's comment and string syntax (the reference
+// lexer must not inherit a wrong table entry from the code under test).
+type vxSyntax struct {
+	single, mstart, mend string
+	nested, rawBackquote  bool
+}
+
+var vxBcpl = vxSyntax{single: "//", mstart: "/*", mend: "*/"}
+var vxShellS = vxSyntax{single: "#"}
+
+var vxSpec = map[language.Language]vxSyntax{
+	language.Assembly: vxBcpl, language.C: vxBcpl, language.CSharp: vxBcpl, language.Dart: vxBcpl, language.Flex: vxBcpl,
+	language.GLSLF: vxBcpl, language.Java: vxBcpl, language.JavaScript: vxBcpl, language.Kotlin: vxBcpl,
+	language.ObjectiveC: vxBcpl, language.Shader: vxBcpl, language.SWIG: vxBcpl, language.TypeScript: vxBcpl,
+	language.Yacc: vxBcpl, language.Verilog: vxBcpl, language.SystemVerilog: vxBcpl, language.SDF: vxBcpl, language.SPEF: vxBcpl,
+	language.Go:    {single: "//", mstart: "/*", mend: "*/", rawBackquote: true},
+	language.Swift: {single: "//", mstart: "/*", mend: "*/", nested: true},
+	language.Rust:  {single: "//"},
+	language.Batch: {single: "@REM"},
+	language.BLIF:  vxShellS, language.TCL: vxShellS,
+	language.CMake:   {single: "#", mstart: "#[[", mend: "]]"},
+	language.Fortran: {single: "!"},
+	language.Haskell: {single: "--", mstart: "{-", mend: "-}"},
+	language.HTML:    {mstart: "<!--", mend: "-->"}, language.Markdown: {mstart: "<!--", mend: "-->"},
+	language.Clojure: {single: ";"}, language.Lisp: {single: ";"},
+	language.Ruby: {single: "#", mstart: "=begin", mend: "=end"},
+	language.Clif: vxShellS, language.Elixir: vxShellS, language.NinjaBuild: vxShellS, language.Perl: vxShellS,
+	language.Python: vxShellS, language.R: vxShellS, language.Shell: vxShellS, language.Yaml: vxShellS,
+	language.Matlab: {single: "%", mstart: "%{", mend: "%}"},
+	language.MySQL:  {single: "#", mstart: "/*", mend: "*/"},
+	language.SQL:    {single: "--"},
+	language.Unknown: {},
+}
+
+// vxCheckTables asserts that the real language tables say what the specification says.
+func vxCheckTables(lang language.Language) {
+	sp, ok := vxSpec[lang]
+	if !ok {
+		return
+	}
+	vxAssert("table-single-line-start", lang.SingleLineCommentStart() == sp.single)
+	vxAssert("table-multi-line-start", lang.MultilineCommentStart() == sp.mstart)
+	vxAssert("table-multi-line-end", lang.MultilineCommentEnd() == sp.mend)
+	vxAssert("table-nested", lang.NestedComments() == sp.nested)
+	ok1, esc1 := lang.QuoteCharacter('"')
+	ok2, esc2 := lang.QuoteCharacter('\'')
+	vxAssert("table-quotes", ok1 && esc1 && ok2 && esc2)
+	ok3, esc3 := lang.QuoteCharacter('`')
+	vxAssert("table-backquote", ok3 == sp.rawBackquote && !esc3)
+}
+
+// H18tables: every language's table entries against the specification.
+func H18tables() {
+	for l := language.Unknown; l <= language.Yaml; l++ {
+		vxCheckTables(l)
+	}
+	vxCover("end")
 }
 
 type vxRefComment struct {
